@@ -28,4 +28,17 @@ CLAIMS['C18'] = {
   'note': 'Trusted: the oracle table in slucheck/props/c18.py (transcribed from the routine headers), clang parser, no-alias contract. '
           'Not decided: preconditions the headers do not state (e.g. consistency of perm_c contents).',
 }
+CLAIMS['C19'] = {
+  'level': 'other',
+  'technique': 'static analysis: path-sensitive ownership/typestate dataflow over own CFG with callee summaries (R4), destroyer field ledger, sibling agreement (R9)',
+  'design_ref': 'DESIGN.md 4 R4 R9, 5 C19',
+  'text': 'Every function of SRC, the Fortran bridge and the example reader is analysed path-sensitively: each block from the allocation '
+          'vocabulary (derived bottom-up: anything returning or storing a fresh block) is released or handed to the caller exactly once on '
+          'every return exit; no double release; no use after release; contents created in local objects are destroyed; each Destroy_* '
+          'releases every pointer field of its format struct (fields read from the parsed struct). s=d and c=z instantiations of all '
+          'routines agree. Decides the leak / double-free / use-after-free clauses for all inputs and all exits, including the size-query, '
+          'singular and out-of-space exits no test drives. Does not decide subscript ranges, uninitialised reads or undefined arithmetic.',
+  'note': 'Known findings (48, ?gstrf/?gsitrf/?LUMemInit out-of-space exits) are listed in known_findings.txt; two leak classes were '
+          'repaired by fix: commits. Trusted: ownership contract for caller-visible objects, GlobalLU_t-as-view, clang parser, own CFG.',
+}
 NOT_APPLICABLE = {}
